@@ -88,16 +88,23 @@ def guarded(seconds=30):
             if threading.current_thread() is not threading.main_thread():
                 return fn(case, *a, **k)
 
+            state = {"armed": True}
+
             def _h(signum, frame):
-                raise CaseTimeout()
+                if state["armed"]:
+                    raise CaseTimeout()
             old = signal.signal(signal.SIGALRM, _h)
-            signal.alarm(seconds)
+            # a repeating timer: an exception raised by the handler inside a gc callback or a __del__ is swallowed
+            # by the interpreter ("Exception ignored in ..."), so one shot is not enough to stop a livelock
+            signal.setitimer(signal.ITIMER_REAL, seconds, 0.5)
             try:
                 return fn(case, *a, **k)
             except CaseTimeout:
+                state["armed"] = False
                 return Verdict("inconclusive", "watchdog after %ds" % seconds)
             finally:
-                signal.alarm(0)
+                state["armed"] = False
+                signal.setitimer(signal.ITIMER_REAL, 0)
                 signal.signal(signal.SIGALRM, old)
         return wrapper
     return deco
